@@ -120,7 +120,8 @@ def _jsonable(w):
 
 def explore_and_check(res, fn, build_vcs, replay=None, negative=None, explorer_kw=None,
                       use_exp_axioms=False, vc_timeout_ms=20000, catch=(Exception,),
-                      max_samples=2, key_prefix="", batch=True, max_seconds=240, stop_after_violations=3, witness_run=True):
+                      max_samples=2, key_prefix="", batch=True, max_seconds=240, stop_after_violations=3, witness_run=True,
+                      pc_for_vcs=None):
   """fn(): the symbolic run (returns anything).  build_vcs(path) -> list[VC]
   (may raise Structural).  replay(vc, witness, path, structural) ->
   (confirmed, desc, record).  negative(path) -> list[VC] that must NOT all hold
@@ -175,11 +176,14 @@ def explore_and_check(res, fn, build_vcs, replay=None, negative=None, explorer_k
       continue
     if vcs is None:
       continue
-    r = D.pc_satisfiable(p.pc)
+    # pc_for_vcs: hypotheses actually handed to the solver with the VCs (a
+    # subset of the path condition: dropping hypotheses is sound)
+    vpc = p.pc if pc_for_vcs is None else pc_for_vcs(p)
+    r = D.pc_satisfiable(vpc)
     if r != z3.sat:
       res["inconclusive"].append("path condition not shown satisfiable (%s)" % r)
       continue
-    out = D.prove_all(p.pc, vcs, use_exp_axioms=use_exp_axioms, batch=batch)
+    out = D.prove_all(vpc, vcs, use_exp_axioms=use_exp_axioms, batch=batch)
     for (v, status, m) in out:
       res["vcs"] += 1
       res[status] += 1
@@ -193,7 +197,7 @@ def explore_and_check(res, fn, build_vcs, replay=None, negative=None, explorer_k
         if vkey in seen_keys:
           seen_keys[vkey]["count"] = seen_keys[vkey].get("count", 1) + 1
           continue
-        w = witness_from_model(m, [v.formula] + list(p.pc))
+        w = witness_from_model(m, [v.formula] + list(vpc))
         confirmed, desc, rec = (False, "no replay available", {})
         if replay is not None:
           try:
@@ -218,7 +222,7 @@ def explore_and_check(res, fn, build_vcs, replay=None, negative=None, explorer_k
         if not neg_seen:
           res["negatives"] += 1
           neg_seen = True
-        s_ = D._solver(p.pc)
+        s_ = D._solver(vpc)
         rneg = D._check(s_, z3.Not(z3.And([v_.formula for v_ in nv])))
         if rneg == z3.sat:
           res["negatives_ok"] += 1
